@@ -7,7 +7,7 @@
    o of the concatenation (tagged with the index of the extent file).  Gen.VmdkTables holds the
    alternatives of RE_EXTENT_DESCRIPTOR and the two type lists of VMDK.__init__ as they are in the source. *)
 From Coq Require Import ZArith List.
-From DH Require Import Base.Plan Base.Table Model.Vmdk Model.VmdkDesc Proofs.Vmdk Proofs.VmdkDesc.
+From DH Require Import Base.Plan Base.Table Model.Vmdk Model.VmdkDesc Proofs.Vmdk Proofs.VmdkDesc Proofs.Storage.
 Import ListNotations.
 Open Scope Z_scope.
 
@@ -76,6 +76,27 @@ Theorem C10_multi_read_correct :
   xsrcs_of p = map (concat_src (v_disks (mk_vmdk xs)) 0) (zseq (sector * 512) (count * 512)).
 Proof. exact multi_read_correct. Qed.
 Print Assumptions C10_multi_read_correct.
+
+(* 6. Parallels StorageStream (disk/hdd.py): storages [start, end) laid back to back from sector s0.
+      The size is the end of the last storage; a read at any sector across any number of storage
+      boundaries returns, for every byte, the byte of the storage holding its sector at the
+      storage-relative offset (tagged with the storage's index). *)
+Theorem C10_storage_size :
+  forall ss s0, ss <> [] -> storage_size ss = s_end ss s0 * 512.
+Proof. exact storage_size_is_end. Qed.
+Print Assumptions C10_storage_size.
+
+Theorem C10_storage_read_correct :
+  forall ss s0 sector count,
+  slaid ss s0 -> s0 <= sector -> 0 <= count -> sector + count <= s_end ss s0 ->
+  xsrcs_of (storage_read ss (sector * 512) (count * 512)) =
+  map (storage_src ss 0) (zseq (sector * 512) (count * 512)).
+Proof. exact storage_read_correct. Qed.
+Print Assumptions C10_storage_read_correct.
+
+Example C10_storage_nonvacuous :
+  slaid [(0, 7); (7, 9); (9, 20)] 0 /\ s_end [(0, 7); (7, 9); (9, 20)] 0 = 20.
+Proof. exact ex_storage. Qed.
 
 (* non-vacuity and the pinned grammar cases (13 cases of tests/test_vmdk.py) as evaluated examples *)
 Example C10_nonvacuous :
